@@ -13,7 +13,7 @@ for d in sorted(glob.glob(os.path.join(VERIF, 'seeded', '*-*'))):
             break
     rows.append((os.path.basename(d), ', '.join(m.get('files', [])), m.get('summary', '')[:220].replace('|', '/').replace('\n', ' '),
                  m.get('needs', '')[:220].replace('|', '/').replace('\n', ' '), c.get('tests', ''), c.get('demo_on_original', ''), c.get('demo_on_changed', '')[:40],
-                 ', '.join(c.get('caught_by', [])) or 'NOT CAUGHT', first))
+                 (', '.join(c.get('caught_by', [])) or 'NOT CAUGHT') + (' -- ' + m['note'] if m.get('note') else ''), first))
 with open(os.path.join(VERIF, 'seeded', 'README.md'), 'w') as f:
     f.write('# Seeded changes (written by independent sub-agents that saw only the property text)\n\n'
             'Each directory holds `patch.diff` (against /repo HEAD at the time), `demo.py` (exit 0 on the original tree, non-zero on the changed tree) and `meta.json` '
